@@ -594,7 +594,12 @@ impl Env {
         let class_a = matches!(win, Win::Rx1 | Win::Rx2);
         let last_before = self.refs.as_ref().and_then(|s| s.last_down);
         let joined_before = self.refs.is_some();
-        let verdict = self.judge(&bytes, rf, class_a);
+        let verdict = if bytes.len() > buf.len() {
+            // the application chose a radio buffer that cannot hold this frame: nothing is specified
+            Verdict::Unspecified("frame-longer-than-radio-buffer")
+        } else {
+            self.judge(&bytes, rf, class_a)
+        };
         let n = bytes.len().min(buf.len());
         buf[..n].copy_from_slice(&bytes[..n]);
         if matches!(verdict, Verdict::Unspecified(_)) {
